@@ -7,10 +7,10 @@
 #include "creds.h"
 
 enum { K_NONE, K_BC_ABSENT, K_BC_FALSE, K_BC_TRUE, K_PL_ABSENT, K_PL_0, K_PL_1, K_PL_EXACT, K_PL_LESS, K_KU_ABSENT, K_KU_NOCERTSIGN, K_KU_DS_ONLY, K_KU_KE_ONLY, K_KU_NONCRIT, K_KU_CERTSIGN_ON_LEAF,
-	K_EKU_SERVER, K_EKU_CLIENT, K_EKU_ANY, K_EXPIRED, K_NOTYET, K_LONGSPAN, K_SIG_FLIP, K_SIG_OTHERKEY, K_ISSUER_MISMATCH, K_UNK_NONCRIT, K_UNK_CRIT, K_V1, K_ISSUER_EXTENDED, K_ISSUER_TRUNCATED, K_ISSUER_LASTCHAR, K_NB_NOW, K_NA_NOW, K_NB_NOW1, K_NA_NOW1, K_EXTS_NONE, K_WIN_P32, K_WIN_P31, K_NB_P32, NKINDS,
+	K_EKU_SERVER, K_EKU_CLIENT, K_EKU_ANY, K_EXPIRED, K_NOTYET, K_LONGSPAN, K_SIG_FLIP, K_SIG_OTHERKEY, K_ISSUER_MISMATCH, K_UNK_NONCRIT, K_UNK_CRIT, K_V1, K_ISSUER_EXTENDED, K_ISSUER_TRUNCATED, K_ISSUER_LASTCHAR, K_NB_NOW, K_NA_NOW, K_NB_NOW1, K_NA_NOW1, K_EXTS_NONE, K_WIN_P32, K_WIN_P31, K_NB_P32, K_SUBJ_UNKNOWN_ATTR, K_SUBJ_NUL_IN_O, NKINDS,
 	G_STORE_UNRELATED = 100, G_STORE_SAMENAME, G_STORE_EMPTY, G_DEPTH, G_STORE_DECOY_FIRST, G_STORE_DECOY_ONLY };
 static const char *KN[] = { "none", "bc-absent", "bc-cA=FALSE", "bc-cA=TRUE", "pathlen-absent", "pathlen-0", "pathlen-1", "pathlen-exact", "pathlen-one-less", "ku-absent", "ku-no-keyCertSign", "ku-digitalSignature-only", "ku-keyEncipherment-only", "ku-non-critical", "ku-keyCertSign-on-leaf",
-	"eku-serverAuth", "eku-clientAuth", "eku-any", "expired", "not-yet-valid", "span>10y", "sig-bitflip", "sig-other-key", "issuer-name-mismatch", "unknown-ext-noncritical", "unknown-ext-critical", "version-v1", "issuer-name-with-extra-rdn", "issuer-name-without-last-rdn", "issuer-name-last-char", "notBefore=now", "notAfter=now", "notBefore=now+1s", "notAfter=now-1s", "no-extensions-at-all", "valid-only-around-now+2^32s", "valid-only-around-now+2^31s", "notBefore=now+2^32s-1h" }; /* the last three: validity windows that are aliases of a currently valid one modulo 2^32 / 2^31 seconds (year 2162 / 2094): time arithmetic done in 32 bits accepts them */
+	"eku-serverAuth", "eku-clientAuth", "eku-any", "expired", "not-yet-valid", "span>10y", "sig-bitflip", "sig-other-key", "issuer-name-mismatch", "unknown-ext-noncritical", "unknown-ext-critical", "version-v1", "issuer-name-with-extra-rdn", "issuer-name-without-last-rdn", "issuer-name-last-char", "notBefore=now", "notAfter=now", "notBefore=now+1s", "notAfter=now-1s", "no-extensions-at-all", "valid-only-around-now+2^32s", "valid-only-around-now+2^31s", "notBefore=now+2^32s-1h", "subject-with-unknown-attribute-before-CN", "subject-with-NUL-in-organizationName-before-CN" }; /* the last three: validity windows that are aliases of a currently valid one modulo 2^32 / 2^31 seconds (year 2162 / 2094): time arithmetic done in 32 bits accepts them */
 typedef struct { int pos, kind, arg; } devn_t;   /* pos: 0 leaf, 1..L-1 intermediates, L anchor, -1 enc leaf (TLCP), -2 global */
 
 typedef struct { int L, role /*0 server 1 client*/, tlcp, depth, store /*0 ok 1 unrelated 2 samename 3 empty*/; cert_spec c[7]; cert_spec enc; } chain_t;
@@ -32,6 +32,7 @@ static void apply(chain_t *ch, devn_t d) {
 	case K_EXPIRED: s->nb = VENV_NOW - 400 * 86400; s->na = VENV_NOW - 86400; break; case K_NOTYET: s->nb = VENV_NOW + 86400; s->na = VENV_NOW + 400 * 86400; break; case K_LONGSPAN: s->nb = VENV_NOW - 86400; s->na = VENV_NOW + (time_t)4000 * 86400; break;
 	/* the validity interval is closed: valid at exactly notBefore and at exactly notAfter, not one second outside */
 	case K_WIN_P32: s->nb = VENV_NOW + ((time_t)1 << 32) - 86400; s->na = VENV_NOW + ((time_t)1 << 32) + 86400; break; case K_WIN_P31: s->nb = VENV_NOW + ((time_t)1 << 31) - 86400; s->na = VENV_NOW + ((time_t)1 << 31) + 86400; break; case K_NB_P32: s->nb = VENV_NOW + ((time_t)1 << 32) - 3600; s->na = s->nb + 365 * 86400; break;
+	case K_SUBJ_UNKNOWN_ATTR: s->subj_bad_rdn = 1; break; case K_SUBJ_NUL_IN_O: s->subj_bad_rdn = 2; break;
 	case K_NB_NOW: s->nb = VENV_NOW; break; case K_NA_NOW: s->na = VENV_NOW; break; case K_NB_NOW1: s->nb = VENV_NOW + 1; break; case K_NA_NOW1: s->na = VENV_NOW - 1; break;
 	/* a v3 certificate without any extension (the extensions field itself is absent): as an issuer it is not a CA */
 	case K_EXTS_NONE: s->bc = 0; s->pathlen = -1; s->ku = -1; s->eku = 0; s->unknown_ext = 0; break;
@@ -50,6 +51,7 @@ static int predicate(const chain_t *ch, const char **why) {
 	for (int i = 0; i <= L; i++) { const cert_spec *s = &ch->c[i];
 		if (i < L) { if (!now_valid(s)) REJ("not-valid-now"); if (s->sig) REJ("bad-signature"); if (s->issuer_mismatch) REJ("issuer-name"); }
 		else { if (!now_valid(s)) UNS("anchor-validity"); if (s->sig || s->issuer_mismatch) UNS("anchor-self-signature"); }
+		if (s->subj_bad_rdn) REJ("malformed-subject-name"); /* a certificate whose subject does not pass the name check does not parse; above the leaf the child's issuer field no longer matches either */
 		if (s->unknown_ext == 2) { if (i < L) REJ("unknown-critical-ext"); else UNS("anchor-unknown-critical-ext"); }
 		if (i >= 1) { if (!is_ca_ok(s)) REJ("issuer-not-a-CA"); int below = i - 1; if (s->pathlen >= 0 && s->pathlen < below) REJ("pathLen-exceeded"); }
 		if (s->na - s->nb > (time_t)3653 * 86400) UNS("validity-span");
@@ -60,7 +62,7 @@ static int predicate(const chain_t *ch, const char **why) {
 	if (lf->ku >= 0 && !(lf->ku & X509_KU_DIGITAL_SIGNATURE)) REJ("leaf-keyUsage");
 	if (lf->eku == (ch->role ? 1 : 2)) REJ("leaf-extKeyUsage-other-role"); if (lf->eku == 3) UNS("eku-any");
 	if (lf->bc == 2) UNS("leaf-is-CA"); if (lf->ku >= 0 && (lf->ku & X509_KU_KEY_CERT_SIGN)) UNS("leaf-keyCertSign"); if (lf->bc == 1) UNS("leaf-bc-false-present"); if (lf->pathlen >= 0) UNS("leaf-pathlen");
-	if (ch->tlcp) { const cert_spec *e = &ch->enc; if (!now_valid(e)) REJ("enc-not-valid-now"); if (e->sig) REJ("enc-bad-signature"); if (e->issuer_mismatch) REJ("enc-issuer-name"); if (e->unknown_ext == 2) REJ("enc-unknown-critical-ext");
+	if (ch->tlcp) { const cert_spec *e = &ch->enc; if (!now_valid(e)) REJ("enc-not-valid-now"); if (e->sig) REJ("enc-bad-signature"); if (e->issuer_mismatch) REJ("enc-issuer-name"); if (e->unknown_ext == 2) REJ("enc-unknown-critical-ext"); if (e->subj_bad_rdn) REJ("enc-malformed-subject-name");
 		if (e->ku >= 0 && !(e->ku & X509_KU_KEY_ENCIPHERMENT)) REJ("enc-keyUsage"); if (e->eku == (ch->role ? 1 : 2)) REJ("enc-extKeyUsage-other-role"); if (e->eku == 3 || e->bc || e->version != X509_version_v3 || e->na - e->nb > (time_t)3653 * 86400 || (e->ku >= 0 && (e->ku & X509_KU_KEY_CERT_SIGN))) UNS("enc-shape"); }
 	/* toolkit shape for must-accept: intermediates carry pathLen == number of CAs below; key usages present; non-critical unknown extensions allowed */
 	for (int i = 1; i < L; i++) { const cert_spec *s = &ch->c[i]; if (s->pathlen != i - 1) UNS("pathLen-not-toolkit-shape"); if (s->ku < 0 || s->eku) UNS("ca-usage-not-toolkit-shape"); }
